@@ -7,6 +7,7 @@ import Compress.Proofs.FlateRefine
 import Compress.Proofs.FlatePrefix
 import Compress.Proofs.BzImplCounters
 import Compress.Proofs.FlateApi
+import Compress.Proofs.BrotliApiOffset
 import Compress.Proofs.BzReaderApi
 import Compress.Proofs.FlateApiRefine
 import Compress.Proofs.MetaRApiExact
@@ -111,6 +112,16 @@ theorem C11_flate_output_offset (r : Reader) (ops : List Op) (hn : ∀ op ∈ op
     (r.reset src).outputOffset = 0 ∧ (r.reset src).inputOffset = 0 :=
   ⟨Compress.Proofs.FlateApi.run_outputOffset r ops hn, (Compress.Proofs.FlateApi.reset_counters r src).1,
    (Compress.Proofs.FlateApi.reset_counters r src).2.1⟩
+
+open Compress.Brotli.Api in
+/-- **brotli.Reader: OutputOffset = bytes delivered since the last Reset**, after every call: from
+    ANY state, a sequence of Reads and Closes moves it by exactly the bytes the Reads returned, and
+    Reset sets it (and InputOffset) to 0. -/
+theorem C11_brotli_output_offset (sd : ByteArray) (r : Reader) (ops : List Op) (hn : ∀ op ∈ ops, op.noReset = true) (src : Src) :
+    (Reader.run sd r ops).1.outputOffset = r.outputOffset + Compress.Proofs.BrotliApi.delivered (Reader.run sd r ops).2 ∧
+    (r.reset src).outputOffset = 0 ∧ (r.reset src).inputOffset = 0 :=
+  ⟨Compress.Proofs.BrotliApi.run_outputOffset sd r ops hn, (Compress.Proofs.BrotliApi.reset_counters r src).1,
+   (Compress.Proofs.BrotliApi.reset_counters r src).2.1⟩
 
 open Compress.Bzip2.ReaderApi in
 /-- **bzip2.Reader: OutputOffset = bytes delivered since the last Reset** (same statement). -/
